@@ -584,4 +584,70 @@ theorem wait_before_close_counterexample :
     (build { d := [8, 1] } (.replicate (.base (.chunks .good)) true .read none) 0).map (fun p => events p.1)
       = some [.closed 0, .wait 0] := ⟨rfl, rfl⟩
 
+/-! ### every handle has to be consumed or discarded -/
+
+theorem neg_step_keeps_fresh (s s' : Neg) (a : NAct) (i : Nat) (ha : a.who ≠ i)
+    (hi : s.hs[i]? = some .fresh) (hs : s.step a = some s') : s'.hs[i]? = some .fresh := by
+  have hlt : i < s.hs.length := by
+    cases h : s.hs[i]? with
+    | none => rw [h] at hi; cases hi
+    | some x => exact (List.getElem?_eq_some_iff.mp h).1
+  cases a with
+  | clone j =>
+    simp only [Neg.step] at hs
+    split at hs
+    · split at hs <;> (simp only [Option.some.injEq] at hs; subst hs)
+      · exact hi
+      · simp only [List.getElem?_append_left hlt]; exact hi
+    · cases hs
+  | consume j nv mc =>
+    simp only [NAct.who] at ha
+    simp only [Neg.step] at hs
+    split at hs
+    · split at hs
+      · simp only [Option.some.injEq] at hs; subst hs; exact hi
+      · split at hs <;> (simp only [Option.some.injEq] at hs; subst hs)
+        · simp only [get_modify_ne _ _ _ _ ha, List.getElem?_map, hi]; rfl
+        · simp only [get_modify_ne _ _ _ _ ha, hi]
+    · cases hs
+
+/-- states reachable from `s0` while handle `i` takes no part -/
+inductive NReachWithout (i : Nat) (s0 : Neg) : Neg → Prop
+  | start : NReachWithout i s0 s0
+  | step {s s' : Neg} (a : NAct) : NReachWithout i s0 s → a.who ≠ i → s.step a = some s' → NReachWithout i s0 s'
+
+/-- If the owner of a handle returns without consuming or discarding it (a task with an early
+exit in front of `sink.Put(ctx, digest, b2)`), then whatever the owners of the other handles do,
+the shared reader is never created and none of them is ever served: each blocks in
+`toChunkReader` for ever, the source is neither read nor closed. -/
+theorem C15_unconsumed_handle_blocks (i : Nat) (s0 s : Neg) (h0 : NReach s0)
+    (hi : s0.hs[i]? = some .fresh) (h : NReachWithout i s0 s) :
+    NReach s ∧ s.hs[i]? = some .fresh ∧ 0 < s.remaining ∧ s.made = [] ∧ ∀ x ∈ s.hs, x ≠ .served := by
+  have key : NReach s ∧ s.hs[i]? = some .fresh := by
+    induction h with
+    | start => exact ⟨h0, hi⟩
+    | step a _ ha hs ih => exact ⟨NReach.step a ih.1 hs, neg_step_keeps_fresh _ _ a i ha ih.2 hs⟩
+  have inv := nreach_inv s key.1
+  have hp := fresh_pos s inv i key.2
+  obtain ⟨o1, o2, _⟩ := inv.opn hp
+  refine ⟨key.1, key.2, hp, o1, ?_⟩
+  intro x hx e
+  subst e
+  have := (List.countP_eq_zero.mp o2) _ hx
+  simp [HS.isServed] at this
+
+/-- a program without an abandoning owner never blocks in this way -/
+theorem C15_blocks_only_if_abandoned (env : Env) (e : BufExpr) (h : usesAbandon e = false) : blocks env e = false := by
+  induction e with
+  | base k => rfl
+  | cloneStream e _ s ih => simp [usesAbandon] at h; simp [blocks, ih h.1, h.2]
+  | cloneCopy e _ ih => exact ih h
+  | withTask e _ ih => exact ih h
+  | withErrorHandler e ih => exact ih h
+  | replicate e _ s _ ih => simp [usesAbandon] at h; simp [blocks, ih h.1, h.2]
+
+/-- two handles, the task that owns handle 1 returns early: handle 0 waits, no reader exists -/
+example : ∃ s, NReachWithout 1 { remaining := 2, hs := [.fresh, .fresh] } s ∧ s.hs = [.arrived, .fresh] ∧ s.made = [] :=
+  ⟨_, NReachWithout.step (.consume 0 true 65536) NReachWithout.start (by simp [NAct.who]) rfl, rfl, rfl⟩
+
 end BB.C15
